@@ -44,6 +44,10 @@ FINGERPRINTS = [
     (L + "file_placement/path_resolver.py", ["PathResolver"]),
     (L + "file_placement/directory_matcher.py", ["DirectoryMatcher"]),
     (L + "file_placement/linter.py", ["lint_path", "check", "_get_root_from_metadata"]),
+    (L + "dry/violation_generator.py", ["generate_violations", "_filter_ignored", "_is_ignored", "_filter_shared_ignored"]),
+    (L + "dry/linter.py", ["check", "_process_file", "_get_project_root", "finalize"]),
+    (CORE, ["lint_files_parallel", "_collect_cross_file_evidence", "_execute_parallel_linting", "lint_directory_parallel", "_path_inside_project"]),
+    ("src/cli/utils.py", ["_infer_root_from_config", "_determine_project_root_for_context", "get_project_root_from_context"]),
 ]
 
 
@@ -352,6 +356,13 @@ def command_sigs():
         "    depth = len(dir_path.split('/'))\n    return (True, depth)\nreturn (False, -1)": "true"})
     _FP_CONSTS = defn("fp_relative_paths_rerooted", "bool", rerooted) + defn("fp_dir_rule_needs_separator", "bool", sep)
     out.append(_sig("file-placement", "IFpDirPrefix", True, [], cwd=False))
+    # dry (cross-file): violations filtered by substring of str(Path(path)); list read from the section's `ignore` key
+    _shape(L + "dry/violation_generator.py", "ViolationGenerator", "_is_ignored", {
+        "path_str = str(Path(file_path))\nreturn any((pattern in path_str for pattern in ignore_patterns))": 1})
+    fd = _body(_fn(L + "dry/config.py", "DRYConfig", "from_dict"))
+    if "ignore_patterns=config.get('ignore', [])" not in fd:
+        raise Unsupported("dry: ignore list is no longer read from config.get('ignore', [])")
+    out.append(_sig("dry", "ISubstr", True, [], cwd=False))
     return defn("command_sigs", "list cmdsig", "[" + ";\n  ".join(out) + "]") + _FP_CONSTS
 
 
@@ -362,7 +373,7 @@ def other_ignore_kinds():
     _shape(L + "stringly_typed/ignore_utils.py", None, "is_ignored", {
         "if not ignore_patterns:\n    return False\npath_str = str(file_path)\nfor pattern in ignore_patterns:\n"
         "    if fnmatch.fnmatch(path_str, pattern):\n        return True\n    if pattern in path_str:\n        return True\nreturn False": 1})
-    return defn("unmodelled_pipeline_ignore_kinds", "list (string * ikind)", '[("dry", ISubstr); ("stringly-typed", IFnmatchOrSubstr)]')
+    return defn("unmodelled_pipeline_ignore_kinds", "list (string * ikind)", '[("stringly-typed", IFnmatchOrSubstr)]')
 
 
 ITEMS = [
